@@ -103,6 +103,7 @@ type Faults struct {
 	SegPct         int           // probability (percent) that a TCP write is cut into several segments
 	ShortReadPct   int           // probability that a Read returns fewer bytes than available
 	MaxSegs        int
+	LatGrid        int // >0: latencies are drawn from this many equidistant values
 }
 
 type Net struct {
@@ -152,6 +153,11 @@ func (n *Net) latency() time.Duration {
 	lo, hi := n.F.MinLat, n.F.MaxLat
 	if hi <= lo {
 		return lo
+	}
+	if g := n.F.LatGrid; g > 0 {
+		// a coarse grid makes arrivals coincide: simulated time only advances at
+		// quiescence, so only simultaneous arrivals are processed concurrently
+		return lo + (hi-lo)*time.Duration(n.K.Draw(g+1))/time.Duration(g)
 	}
 	// microsecond resolution keeps the tape values small
 	span := int((hi - lo) / time.Microsecond)
